@@ -399,13 +399,22 @@ func (s *scenario) run(submitters int, fill bool) {
 				want = append(want, s.pvals[i])
 			}
 		}
-		// the statement does not order the handler call against Wait(): give a
-		// handler that is called after the slot was returned the time to be called
-		waitUpTo(4*time.Second, func() bool {
-			s.handled.Lock()
-			defer s.handled.Unlock()
-			return len(s.values) >= len(want)
-		})
+		// Wait() without timeout returns only after all functions have finished, and a
+		// function that panicked has not finished before its panic value has been handed
+		// to the handler (a caller that exits after Wait would otherwise lose the report).
+		// Returning the *slot* before the handler runs is fine; Wait is what is ordered.
+		s.handled.Lock()
+		early := len(s.values) < len(want)
+		s.handled.Unlock()
+		if early {
+			late := waitUpTo(4*time.Second, func() bool {
+				s.handled.Lock()
+				defer s.handled.Unlock()
+				return len(s.values) >= len(want)
+			})
+			c.Failf("wait-before-handler", "Wait() returned while the panic value of a function that had panicked had not reached the configured handler yet (it did %sarrive within 4s afterwards): %d panicking functions (%s)", map[bool]string{true: "", false: "not "}[late], len(want), s.describe())
+			return
+		}
 		s.handled.Lock()
 		got := append([]any(nil), s.values...)
 		s.handled.Unlock()
@@ -1168,6 +1177,8 @@ func main() {
 	r.CasesProc("two-limiters", r.N(1500, 40000), ev.Opt{Procs: 6, Workers: 4, AlwaysLog: true, MaxCaseSeconds: 120}, twoLimitersCase)
 	r.CasesProc("big-limit", r.N(160, 4000), ev.Opt{Procs: 8, Workers: 2, AlwaysLog: true, MaxCaseSeconds: 120}, bigLimitCase)
 	r.CasesProc("hold", r.N(480, 8000), ev.Opt{Procs: 8, Workers: 8, AlwaysLog: true, MaxCaseSeconds: 120}, holdCase)
+	r.CasesProc("handler-hold", r.N(400, 8000), ev.Opt{Procs: 4, Workers: 8, AlwaysLog: true, MaxCaseSeconds: 120}, handlerHoldCase)
+	r.Require("handler_hold_scenarios", 300)
 	r.CasesProc("reuse", r.N(4000, 100000), ev.Opt{Procs: 12, Workers: 1, AlwaysLog: true, MaxCaseSeconds: 120}, reuseCase)
 	r.CasesProc("reuse/race", r.N(800, 20000), ev.Opt{Bin: "race", Procs: 8, Workers: 1, AlwaysLog: true, MaxCaseSeconds: 120, IgnoreRaces: true}, reuseCase)
 	r.CasesProc("scenario/race", r.N(3000, 60000), ev.Opt{Bin: "race", Procs: 8, Workers: 2, AlwaysLog: true, MaxCaseSeconds: 120, IgnoreRaces: true}, scenarioCase)
